@@ -58,6 +58,8 @@ type desc struct {
 	Arr       []arrival `json:"arrivals,omitempty"`
 	Steps     []step    `json:"steps,omitempty"`
 	Plan      string    `json:"plan"`
+	Burst     bool      `json:"burst,omitempty"`
+	Overflow  bool      `json:"three_back_to_back,omitempty"`
 }
 
 // ---- payload catalogue ----
@@ -74,10 +76,10 @@ var validPre = []pl{
 	{`foo:"bar" timeout:"200"`, 0, 200}, {`x:"a\"b"   timeout:"320"`, 0, 320}, {`timeout:"200" timeout:"1"`, 0, 200},
 	{`Timeout:"1" timeout:"240"`, 0, 240}, {`timeout:"0200"`, 0, 200}, {`T:"" timeout:"160" rest`, 0, 160},
 	{`timeout:"0"`, 0, 0}, {`timeout:"-40"`, 0, -40}, {`timeout:"-0"`, 0, 0},
-	{`timeout:"9300000000000"`, 0, 9300000000000},  // wraps to a negative Duration
+	{`timeout:"9300000000000"`, 0, 9300000000000},        // wraps to a negative Duration
 	{`timeout:"-9223372036854775808"`, 0, math.MinInt64}, // * 1e6 wraps to 0
-	{`timeout:"86400000"`, 0, 86400000},              // a day: the script is made to end with a response
-	{`timeout:"18446744073910"`, 0, 18446744073910}, // wraps to a small positive Duration (200.448384 ms)
+	{`timeout:"86400000"`, 0, 86400000},                  // a day: the script is made to end with a response
+	{`timeout:"18446744073910"`, 0, 18446744073910},      // wraps to a small positive Duration (200.448384 ms)
 }
 
 var badPre = []string{
@@ -239,7 +241,7 @@ func genArrivals(r *Rng, T int64, minGap int64, noBurst bool) ([]arrival, string
 		}
 		if act < 9 || !canIn {
 			// a late arrival: the timer fires first
-			t := toMs(eff) + marginMs + int64(r.Intn(3))*gridMs
+			t := int64((eff+time.Millisecond-1)/time.Millisecond) + marginMs + int64(r.Intn(3))*gridMs
 			if t < last+minGap {
 				t = last + minGap
 			}
@@ -396,13 +398,13 @@ type pubRec struct {
 }
 
 type sconn struct {
-	e    *env
-	d    *desc
-	mu   sync.Mutex
-	subs []*nats.Subscription
-	subj []string
-	chs  []chan *nats.Msg
-	pubs []pubRec
+	e       *env
+	d       *desc
+	mu      sync.Mutex
+	subs    []*nats.Subscription
+	subj    []string
+	chs     []chan *nats.Msg
+	pubs    []pubRec
 	pubOK   bool
 	lastErr error
 	extra   []string
@@ -499,6 +501,7 @@ func (c *sconn) PublishRequest(subject, reply string, data []byte) error {
 				case <-c.stop:
 					return
 				}
+				lateWake(t0.Add(dur(a.AtMs)))
 				c.e.feed.Publish(reply, a.Payload)
 			}
 		}()
@@ -514,6 +517,7 @@ func (c *sconn) PublishRequest(subject, reply string, data []byte) error {
 				case <-c.stop:
 					return
 				}
+				lateWake(t0.Add(dur(a.AtMs)))
 				select {
 				case ch <- &nats.Msg{Subject: reply, Data: append([]byte(nil), a.Payload...), Sub: sub}:
 				case <-c.stop:
@@ -523,6 +527,76 @@ func (c *sconn) PublishRequest(subject, reply string, data []byte) error {
 		}()
 	}
 	return nil
+}
+
+// ---- scheduler-jitter probe: a script during which a 5 ms sleep overshot by more than
+// jitterLimit is re-run (the measurement, not the comparison, is what gets repeated) ----
+
+const jitterLimit = 40 * time.Millisecond
+
+var probeMu sync.Mutex
+var probeBad []time.Time
+var probeMax time.Duration
+var probeStop = make(chan struct{})
+
+func probe() {
+	for {
+		select {
+		case <-probeStop:
+			return
+		default:
+		}
+		t := time.Now()
+		time.Sleep(5 * time.Millisecond)
+		over := time.Since(t) - 5*time.Millisecond
+		probeMu.Lock()
+		if over > probeMax {
+			probeMax = over
+		}
+		if over > jitterLimit {
+			probeBad = append(probeBad, t)
+		}
+		probeMu.Unlock()
+	}
+}
+
+func lateWake(due time.Time) {
+	if over := time.Since(due); over > jitterLimit {
+		probeMu.Lock()
+		probeBad = append(probeBad, due)
+		if over > probeMax {
+			probeMax = over
+		}
+		probeMu.Unlock()
+	}
+}
+
+func jittered(from, to time.Time) bool {
+	probeMu.Lock()
+	defer probeMu.Unlock()
+	for _, t := range probeBad {
+		if !t.Before(from.Add(-100*time.Millisecond)) && !t.After(to) {
+			return true
+		}
+	}
+	return false
+}
+
+var rerunMu sync.Mutex
+var reruns int
+
+func runStable(e *env, d *desc) (Case, []ImplViolation) {
+	for try := 0; ; try++ {
+		from := time.Now()
+		c, iv := runOne(e, d)
+		if try >= 3 || !jittered(from, time.Now()) {
+			return c, iv
+		}
+		rerunMu.Lock()
+		reruns++
+		rerunMu.Unlock()
+		time.Sleep(time.Duration(100*(try+1)) * time.Millisecond)
+	}
 }
 
 // ---- running one script ----
@@ -811,6 +885,12 @@ func runOne(e *env, d *desc) (Case, []ImplViolation) {
 	if ncbs > 0 {
 		cs.Tags = append(cs.Tags, "extended")
 	}
+	if d.Burst {
+		cs.Tags = append(cs.Tags, "burst")
+	}
+	if d.Overflow {
+		cs.Tags = append(cs.Tags, "inbox-overflow")
+	}
 	return cs, impl
 }
 
@@ -901,6 +981,14 @@ func genService(r *Rng, id int, dist map[string]int) *desc {
 		d.Steps = append(d.Steps, step{Op: "timeout", Ms: ms})
 		dl = now + ms
 		dist["service:timeout-sent"]++
+		if ms >= marginMs && r.Chance(25) {
+			// the usual handler shape: announce, then answer at once (two messages back to back)
+			respond()
+			d.Burst = true
+			dist["service:burst"]++
+			dist["service:plan-answer"]++
+			return d
+		}
 	}
 	if dl-now >= marginMs {
 		if r.Chance(15) {
@@ -922,6 +1010,16 @@ func genService(r *Rng, id int, dist map[string]int) *desc {
 	return d
 }
 
+// two announcements and the response back to back: three messages reach the client connection
+// faster than SendRequest takes them off its inbox channel (capacity 1)
+func genOverflow(r *Rng, id int, dist map[string]int) *desc {
+	d := &desc{Mode: "service", ID: id, Ncb: r.Intn(3), Req: "steps", TimeoutMs: 320, Plan: "answer", Burst: true, Overflow: true}
+	g := int64(1+r.Intn(3)) * gridMs
+	d.Steps = []step{{Op: "sleep", Ms: g}, {Op: "timeout", Ms: 200}, {Op: "timeout", Ms: 240}, {Op: "ok", I: id}}
+	dist["service:three-back-to-back"]++
+	return d
+}
+
 func runBatch(e *env, ds []*desc, width int, r *Rng) ([]Case, []ImplViolation) {
 	cases := make([]Case, len(ds))
 	impls := make([][]ImplViolation, len(ds))
@@ -933,12 +1031,12 @@ func runBatch(e *env, ds []*desc, width int, r *Rng) ([]Case, []ImplViolation) {
 		var wg sync.WaitGroup
 		for i := off; i < end; i++ {
 			i := i
-			jitter := time.Duration(r.Intn(gridMs*1000)) * time.Microsecond
+			jitter := time.Duration(r.Intn(400*1000)) * time.Microsecond
 			wg.Add(1)
 			go func() {
 				defer wg.Done()
 				time.Sleep(jitter)
-				cases[i], impls[i] = runOne(e, ds[i])
+				cases[i], impls[i] = runStable(e, ds[i])
 			}()
 		}
 		wg.Wait()
@@ -1010,6 +1108,12 @@ func main() {
 			ds = append(ds, genService(r, id, dist))
 			withService = true
 		}
+		if nSvc > 0 && os.Getenv("VERIF_C19_OVERFLOW") != "0" {
+			for i := 0; i < 8; i++ {
+				id++
+				ds = append(ds, genOverflow(r, id, dist))
+			}
+		}
 	}
 	t0 := time.Now()
 	e := newEnv(withService)
@@ -1019,7 +1123,11 @@ func main() {
 	group := func(mode string, width int) {
 		var sel []*desc
 		for _, d := range ds {
-			if d.Mode == mode {
+			m := d.Mode
+			if d.Req == "big" {
+				m = "big"
+			}
+			if m == mode {
 				sel = append(sel, d)
 			}
 		}
@@ -1030,7 +1138,22 @@ func main() {
 		cases = append(cases, cs...)
 		impl = append(impl, iv...)
 	}
+	go probe()
+	// warm-up (not recorded): first calls pay for page faults, thread start-up, connection set-up
+	{
+		var wds []*desc
+		wr := NewRng(12345)
+		for i := 0; i < 40; i++ {
+			wds = append(wds, genScripted(wr, 1000000+i, "scripted", map[string]int{}))
+		}
+		runBatch(e, wds, 40, wr)
+		probeMu.Lock()
+		probeBad, probeMax = nil, 0
+		probeMu.Unlock()
+		reruns = 0
+	}
 	group("scripted", 700)
+	group("big", 4)
 	group("nats-raw", 300)
 	group("service", 100)
 	// all subscriptions of all calls must be gone, on the client and on the server
@@ -1044,6 +1167,11 @@ func main() {
 		"client_subscriptions_after_all_calls": cliSubs,
 		"harness_wall_s":                       math.Round(time.Since(t0).Seconds()*10) / 10,
 	}
+	close(probeStop)
+	probeMu.Lock()
+	extra["max_scheduler_overshoot_ms"] = int64(probeMax / time.Millisecond)
+	extra["scripts_rerun_because_of_jitter"] = reruns
+	probeMu.Unlock()
 	e.close()
 	keys := make([]string, 0, len(dist))
 	for k := range dist {
@@ -1059,5 +1187,5 @@ func main() {
 	dist["nontrivial"] = nontriv
 	Emit(o, "C19", "From GoRes Require Import Run.Run_C19.", "ccase",
 		"SendRequest against a scripted res.Conn over an embedded nats-server: 0-6 arrivals on a 40 ms grid mixing valid timeout pre-responses (incl. escapes, signs, int64 wrap-around, several tags), pre-responses without effect, result/resource/error responses and garbage; failing marshal/subscribe/publish; thorough adds arrivals sent through the server and a real res.Service; every timer-vs-message decision >= 120 ms from a tie; non-trivial = a failing step or at least one pre-response in the script; distinct by script",
-		cases, dist, extra, impl, 400)
+		cases, dist, extra, impl, 100)
 }
